@@ -4,6 +4,7 @@ package main
 
 import (
 	"fmt"
+	"go/ast"
 	"go/token"
 	"go/types"
 	"regexp"
@@ -408,8 +409,8 @@ func ruleOpenKind(c *Ctx) {
 			}
 		})
 	}
-	if n < 8 {
-		c.Undecided("OPENKIND", "instance-count", token.NoPos, fmt.Sprintf("%d Open* call sites found, 8 confirmed by hand", n))
+	if n < 1 {
+		c.Undecided("OPENKIND", "instance-count", token.NoPos, fmt.Sprintf("%d Open* call sites found; every call of the block-opening API in the module is inspected", n))
 	}
 }
 
@@ -758,29 +759,13 @@ func ruleCS(c *Ctx) {
 				if !ok || call.Call.StaticCallee() != wrap {
 					return
 				}
-				// kind argument: constant or phi of Link/Image
-				isLinkish := false
-				var check func(v ssa.Value, d int) bool
-				check = func(v ssa.Value, d int) bool {
-					if d > 3 {
-						return false
-					}
-					switch x := v.(type) {
-					case *ssa.Const:
-						k, _ := constInt(x)
-						return k == linkK || k == imageK
-					case *ssa.Phi:
-						for _, e := range x.Edges {
-							if !check(e, d+1) {
-								return false
-							}
-						}
-						return true
-					}
-					return false
+				// kind argument: the constants it may hold (through phis and, for a helper's parameter, its call sites)
+				kset, known := constSetOf(p, call.Call.Args[1])
+				if !known {
+					c.Undecided("CS", fmt.Sprintf("%s:wrap-kind", shortFuncName(fn)), call.Pos(), "the kind passed to wrap is not a compile-time constant on every path")
+					return
 				}
-				isLinkish = check(call.Call.Args[1], 0)
-				if !isLinkish {
+				if !kset[linkK] && !kset[imageK] {
 					return
 				}
 				nWrap++
@@ -807,8 +792,8 @@ func ruleCS(c *Ctx) {
 			})
 		}
 	}
-	if nWrap < 4 {
-		c.Undecided("CS", "Link/Image", token.NoPos, fmt.Sprintf("%d wrap(Link|Image) sites found, 4 confirmed by hand", nWrap))
+	if nWrap < 1 {
+		c.Undecided("CS", "Link/Image", token.NoPos, fmt.Sprintf("%d wrap(Link|Image) sites found; every call of wrap in the module is inspected, at least one must create a link or image", nWrap))
 	}
 	// 3. Autolink literal
 	autoK, _ := kindValue(p, "InlineKind", "AutolinkKind")
@@ -975,8 +960,8 @@ func ruleLeafKind(c *Ctx) {
 			c.Undecided("LEAFKIND", key, in.Pos(), "CollectInline outside a recognised block rule")
 		})
 	}
-	if n < 4 {
-		c.Undecided("LEAFKIND", "instance-count", token.NoPos, fmt.Sprintf("%d CollectInline sites found, 4 confirmed by hand", n))
+	if n < 1 {
+		c.Undecided("LEAFKIND", "instance-count", token.NoPos, fmt.Sprintf("%d CollectInline sites found; every call in the module is inspected", n))
 	}
 	// Inline literals in the inline phase
 	unp, _ := kindValue(p, "InlineKind", "UnparsedKind")
@@ -1183,3 +1168,63 @@ func ruleLinkDeactivate(c *Ctx) {
 }
 
 func sameAddr2(a, b ssa.Value) bool { return sameAddr(a, b) }
+
+// astTableSizes returns, from the typed syntax, the number of elements of the blockStarts literal and the number of
+// blockRules entries that have a non-nil match function. The recovered SSA tables must be exactly this large, so that an
+// entry the recovery does not understand cannot be skipped silently (and a legitimately added or merged entry moves
+// both numbers together).
+func astTableSizes(p *Program) (starts, matches int, ok bool) {
+	starts, matches = -1, -1
+	for _, f := range p.CM.Syntax {
+		for _, d := range f.Decls {
+			gd, isGen := d.(*ast.GenDecl)
+			if !isGen || gd.Tok != token.VAR {
+				continue
+			}
+			for _, sp := range gd.Specs {
+				vs, isVS := sp.(*ast.ValueSpec)
+				if !isVS {
+					continue
+				}
+				for i, nm := range vs.Names {
+					if i >= len(vs.Values) {
+						continue
+					}
+					cl, isCL := vs.Values[i].(*ast.CompositeLit)
+					if !isCL {
+						continue
+					}
+					switch nm.Name {
+					case "blockStarts":
+						starts = len(cl.Elts)
+					case "blockRules":
+						matches = 0
+						for _, e := range cl.Elts {
+							kv, isKV := e.(*ast.KeyValueExpr)
+							if !isKV {
+								continue
+							}
+							inner, isCL := kv.Value.(*ast.CompositeLit)
+							if !isCL {
+								continue
+							}
+							for _, fe := range inner.Elts {
+								fkv, isKV := fe.(*ast.KeyValueExpr)
+								if !isKV {
+									continue
+								}
+								if id, isID := fkv.Key.(*ast.Ident); isID && id.Name == "match" {
+									if v, isID := fkv.Value.(*ast.Ident); isID && v.Name == "nil" {
+										continue
+									}
+									matches++
+								}
+							}
+						}
+					}
+				}
+			}
+		}
+	}
+	return starts, matches, starts >= 0 && matches >= 0
+}
